@@ -1,7 +1,7 @@
 (* C20 - wire codecs: the property theorems, nothing else.  Each is closed by [exact] of a lemma proved in
    Codec/*.v and followed by Print Assumptions.  Bytes are Z values; payloads are arbitrary lists. *)
 From Icv Require Import Base.Tac Codec.NsModel Codec.NsDecimal Codec.NsProofs Codec.NsStreamProofs
-  Codec.JsModel Codec.CodecOracle Codec.CodecOracleProofs.
+  Codec.JsModel Codec.JsProofs Codec.CodecOracle Codec.CodecOracleProofs.
 Local Open Scope Z_scope.
 
 (* ---- netstring, StreamReadContext variant (state file, replay log, objects file) ---- *)
@@ -101,6 +101,52 @@ Theorem C20_oracle_stream_accepts_model : forall max input,
   let '(fs, e, r) := nss_run (S (length input)) max input in nss_oracle max input fs e r 0 = true.
 Proof. exact nss_oracle_accepts_model. Qed.
 Print Assumptions C20_oracle_stream_accepts_model.
+
+(* ---- JSON ---- *)
+(* UTF-8: utf8::internal::validate_next decodes what utf8::append wrote, for every Unicode scalar value, whatever follows *)
+Theorem C20_utf8_decode_encode : forall cp rest,
+  js_scalar cp -> js_utf8_next (js_utf8_enc cp ++ rest) = JsU8Ok cp (length (js_utf8_enc cp)).
+Proof. exact js_utf8_next_enc. Qed.
+Print Assumptions C20_utf8_decode_encode.
+
+(* Utility::ValidateUTF8 does not touch well-formed UTF-8 *)
+Theorem C20_json_sanitize_identity : forall cps, Forall js_scalar cps -> js_sanitize (js_utf8_of cps) = js_utf8_of cps.
+Proof. exact js_sanitize_valid. Qed.
+Print Assumptions C20_json_sanitize_identity.
+
+(* \uXXXX as printed by the serializer is read back by get_codepoint *)
+Theorem C20_json_hex4 : forall x rest, 0 <= x < 65536 -> js_unhex4 (js_hex4 x ++ rest) = Some (x, rest).
+Proof. exact js_unhex4_hex4. Qed.
+Print Assumptions C20_json_hex4.
+
+(* the round trip for strings and dictionary keys over ALL of Unicode (control characters, quote, backslash, DEL,
+   non-ASCII as \uXXXX, astral planes as surrogate pairs): what JsonEncoder::Strng writes, followed by anything,
+   is lexed back to the same bytes and the lexer stops right behind the closing quote.
+   This is the part of "js_decode (js_encode v) = Some v" that is proved; the composition over numbers, arrays and
+   dictionaries (token-level lemmas for js_lex_num / js_pval) is NOT proved - hence _partial.  It is exercised by
+   the correspondence run (real JsonDecode(JsonEncode(v)) = v on every generated value). *)
+Theorem C20_json_roundtrip_partial : forall cps more f,
+  Forall js_scalar cps -> (length cps < f)%nat ->
+  match js_quote (js_utf8_of cps) ++ more with
+  | q :: body => q = 34 /\ js_lex_str f body [] = Some (js_utf8_of cps, more)
+  | [] => False
+  end.
+Proof. exact js_string_roundtrip. Qed.
+Print Assumptions C20_json_roundtrip_partial.
+
+(* whole values: kernel-evaluated instances only (floats instantiated by an empty type: integers only) *)
+Example C20_json_roundtrip_examples :
+  let dec := js_decode Empty_set (fun _ => None) in
+  let enc := js_encode Empty_set (fun f => match f with end) in
+  forallb (fun v => match dec (enc v) with Some v' => cd_bytes_eqb (enc v') (enc v) | None => false end)
+    [ JsNull _; JsBool _ true; JsNum _ 0; JsNum _ (-9007199254740992); JsNum _ 18446744073709549568;
+      JsStr _ [0; 31; 34; 92; 127; 195; 164; 240; 159; 152; 128; 239; 191; 189];
+      JsArr _ []; JsObj _ [];
+      JsObj _ [([], JsArr _ [JsNull _; JsNum _ (-1); JsObj _ [([97], JsStr _ []); ([98], JsArr _ [JsArr _ []])]]);
+               ([10; 34], JsBool _ false)] ] = true /\
+  dec [91; 49; 44; 93] = None /\ dec [123; 34; 97; 34; 58; 49; 44; 34; 97; 34; 58; 50; 125] = Some (JsObj _ [([97], JsNum _ 2)]) /\
+  dec [34; 92; 117; 100; 56; 48; 48; 34] = None /\ dec [48; 49] = None /\ dec [91; 93; 0; 120] = Some (JsArr _ []).
+Proof. vm_compute. repeat split. Qed.
 
 (* non-vacuity: two frames (one empty) cut in the middle of a length prefix and of a payload *)
 Example C20_nonvacuous :
